@@ -529,6 +529,72 @@ func boolEdges(cond ssa.Value) (tru, fls []Edge) {
 	return
 }
 
+// threadEdge: where control goes after edge e when e enters a block that only merges a short-circuit
+// condition (`a || b` evaluated as a value: phi [true, b]) and branches on it: the incoming constant decides
+// the branch, so the edge continues into that successor.
+func threadEdge(e Edge) Edge {
+	for d := 0; d < 4; d++ {
+		iff, ok := terminator(e.To).(*ssa.If)
+		if !ok {
+			return e
+		}
+		neg := false
+		cond := iff.Cond
+		for {
+			u, isU := cond.(*ssa.UnOp)
+			if !isU || u.Op != token.NOT || u.Block() != e.To {
+				break
+			}
+			cond, neg = u.X, !neg
+		}
+		phi, ok := cond.(*ssa.Phi)
+		if !ok || phi.Block() != e.To {
+			return e
+		}
+		pure := true
+		for _, in := range e.To.Instrs {
+			switch x := in.(type) {
+			case *ssa.Phi, *ssa.If, *ssa.DebugRef:
+			case *ssa.UnOp:
+				if x.Op != token.NOT {
+					pure = false
+				}
+			default:
+				pure = false
+			}
+		}
+		if !pure {
+			return e
+		}
+		idx := -1
+		for i, p := range e.To.Preds {
+			if p == e.From {
+				if idx >= 0 {
+					return e
+				}
+				idx = i
+			}
+		}
+		if idx < 0 {
+			return e
+		}
+		k, ok := phi.Edges[idx].(*ssa.Const)
+		if !ok || k.Value == nil {
+			return e
+		}
+		val := k.Value.String() == "true"
+		if neg {
+			val = !val
+		}
+		succ := e.To.Succs[1]
+		if val {
+			succ = e.To.Succs[0]
+		}
+		e = Edge{e.To, succ}
+	}
+	return e
+}
+
 // nilTestEdges: edges on which v is known nil / known non-nil, from
 // comparisons with nil and from errors.Is(v, _) (true ⇒ non-nil).
 func nilTestEdges(v ssa.Value) (isNil, nonNil []Edge) {
